@@ -5,7 +5,8 @@
    ready, resolved inside the init function before the registration, resolved by a second thread, resolved later by
    the registering thread) x helper storage (heap / counting storage / reusable_storage / one of two trailer-tagged
    storages / reusable_storage_mtsafe) x converter (returns src + d / throws / resolves with an exception / declines / forwards the promise to another thread, any d)
-   x optional competing resolver
+   x optional re-arming handler (call_fn_future_awaiter: the handler starts a second operation on the same awaiter, still
+   pending when it returns, resolved by a third thread) x optional competing resolver
    on a third thread (value / exception / p(drop));
    `reachable c s` ranges over every schedule of the registering thread and the resolver threads (every interleaving
    at hook-point granularity: resolution before, during and after the registration);
@@ -13,38 +14,29 @@
 From Cocls Require Import Base BaseProofs AdaptersDefs AdaptersInv AdaptersProofs AdaptersOracle.
 Local Open Scope nat_scope.
 
-(* no schedule strands a registration or a resolver: when nothing can move, all threads ran to completion *)
-Theorem c18_no_lost_completion : forall c s,
-  valid c = true -> reachable c s -> terminal s -> th0 s = [] /\ th1 s = [] /\ th2 s = [].
-Proof. exact terminal_done. Qed.
-Print Assumptions c18_no_lost_completion.
+(* progress: no schedule strands a registration or a resolver (when nothing can move, all threads ran to completion);
+   no livelock (every schedule of every valid configuration reaches a terminal state within 90 steps, so the `terminal`
+   hypotheses below are met by every complete run); the executable runner used for the correspondence check only
+   visits reachable states *)
+Theorem c18_progress : forall c, valid c = true ->
+  (forall s, reachable c s -> terminal s -> th0 s = [] /\ th1 s = [] /\ th2 s = []) /\
+  (forall sched fuel, 90 <= fuel -> terminal (fst (run_sched c fuel (init c) sched []))) /\
+  (forall fuel s sched tr, reachable c s -> reachable c (fst (run_sched c fuel s sched tr))).
+Proof. exact progress_all. Qed.
+Print Assumptions c18_progress.
 
-(* no livelock: every schedule of every valid configuration reaches a terminal state within 90 steps, so the
-   `terminal` hypotheses below are met by every complete run *)
-Theorem c18_every_schedule_terminates : forall c sched fuel,
-  valid c = true -> 90 <= fuel -> terminal (fst (run_sched c fuel (init c) sched [])).
-Proof. exact every_schedule_terminates. Qed.
-Print Assumptions c18_every_schedule_terminates.
-
-(* the user callback is never entered twice, in any reachable state ... *)
-Theorem c18_fires_at_most_once : forall c s, valid c = true -> reachable c s -> ncb s <= 1.
-Proof. exact fires_at_most_once. Qed.
-Print Assumptions c18_fires_at_most_once.
-
-(* ... and exactly once when the scenario has run to completion: never zero, never twice
-   (discard and future_conv have no user callback: 0) *)
-Theorem c18_fires_once : forall c s,
-  valid c = true -> reachable c s -> terminal s -> ncb s = b2n (has_cb (c_ad c)).
-Proof. exact fires_exactly_once. Qed.
-Print Assumptions c18_fires_once.
-
-(* every callback invocation sees exactly what the source future holds = the outcome of the claim that succeeded,
-   and at that moment the helper block is allocated and not yet released *)
-Theorem c18_right_outcome : forall c s t o al fr,
-  valid c = true -> reachable c s -> In (t, ECb o al fr) (log s) ->
-  o = payload s /\ o = wout c s /\ al = hb c /\ fr = 0.
-Proof. exact right_outcome. Qed.
-Print Assumptions c18_right_outcome.
+(* THE CALLBACK.  One entry per awaited operation: never more in any reachable state (the first completion started at most
+   once, the second - a re-arming call_fn_future_awaiter handler awaits two operations - at most once), and exactly one per
+   awaited operation when the scenario has run to completion: never zero, never twice (discard and future_conv have no user
+   callback: 0).  Every invocation sees exactly what its operation's future holds: the outcome of the claim that succeeded
+   for the first operation, the declared outcome of the second operation for the re-armed run; and at that moment the helper
+   block is allocated and not yet released *)
+Theorem c18_fires_once_right_outcome : forall c s, valid c = true -> reachable c s ->
+  ((ncb s <= 1 + re c /\ nfire s <= 1 /\ nfire2 s <= re c) /\ (terminal s -> ncb s = b2n (has_cb (c_ad c)) + re c)) /\
+  (forall t o al fr, In (t, ECb o al fr) (log s) ->
+     ((o = payload s /\ o = wout c s) \/ (re c = 1 /\ o = payload2 s /\ o = out_of (kind_re c))) /\ al = hb c /\ fr = 0).
+Proof. exact callbacks_all. Qed.
+Print Assumptions c18_fires_once_right_outcome.
 
 (* the claim that succeeded is the call that returned true: never two; the declared outcome when there is no
    competing resolver; with one, exactly one of the two calls returned true and the delivered outcome is that call's *)
@@ -57,50 +49,34 @@ Theorem c18_outcome_is_the_winners : forall c s, valid c = true -> reachable c s
 Proof. exact winner_facts. Qed.
 Print Assumptions c18_outcome_is_the_winners.
 
-(* the helper block / frame is never released twice, never before the callback returned (the log then ends with
-   callback-entered, callback-returned, callback object destroyed, storage dealloc — in this order), and is released
-   exactly once at the end *)
-Theorem c18_released_once : forall c s,
-  valid c = true -> reachable c s ->
-  frees s <= allocs s /\ allocs s = hb c /\
-  (frees s >= 1 -> atomic_cb c = true -> exists pre t, log s = pre ++ cb_log c (payload s) t) /\
-  (terminal s -> frees s = allocs s).
-Proof. exact released_once. Qed.
-Print Assumptions c18_released_once.
+(* RELEASE.  The helper block / frame is never released twice, never before the callback returned (the log then contains
+   callback-entered, callback-returned, callback object destroyed, storage dealloc - in this order), and is released exactly
+   once at the end; and the complete final state: source ready with the winner's outcome, promise consumed, completion
+   started exactly once (twice for a re-arming handler: once per operation), everything released, outer future resolved
+   once and delivered once (converter adapter) *)
+Theorem c18_released_once_final_state : forall c s, valid c = true -> reachable c s ->
+  (frees s <= allocs s /\ allocs s = hb c /\
+   (frees s >= 1 -> atomic_cb c = true -> exists pre post t, log s = pre ++ cb_log c (payload s) t ++ post) /\
+   (terminal s -> frees s = allocs s)) /\
+  (terminal s -> Final c s).
+Proof. exact release_all. Qed.
+Print Assumptions c18_released_once_final_state.
 
-(* the complete final state: source ready with the winner's outcome, promise consumed, completion started exactly once,
-   everything released, outer future resolved once and delivered once (converter adapter) *)
-Theorem c18_final_state : forall c s,
-  valid c = true -> reachable c s -> terminal s -> Final c s.
-Proof. exact terminal_final. Qed.
-Print Assumptions c18_final_state.
-
-(* converter: at the end the outer future holds conv(v) / the converter's exception / the source's exception
-   (await_canceled for a broken promise) / no value when the converter declined, resolved once, delivered once
-   (by the late resolver thread when the converter forwarded the promise); the converter ran once iff there was a value,
-   and the log is exactly [converter call; outer delivery] *)
-Theorem c18_conv_value_exception : forall c s,
-  valid c = true -> is_conv c = true -> reachable c s -> terminal s ->
-  oslot s = SReady /\ opayload s = conv_result c (wout c s) /\ nores s = 1 /\ ndeliv s = 1 /\
-  nconv s = b2n (isv (wout c s)) /\
-  exists t1 t2, log s = conv_log c (wout c s) t1 ++ [(t2, EODeliv (conv_result c (wout c s)))].
-Proof. exact conv_final. Qed.
-Print Assumptions c18_conv_value_exception.
-
-(* converter, safety half in every reachable state: the outer future is never resolved twice, the converter never runs
-   twice nor on an exception, nothing is delivered before the resolution, a ready outer future holds the expected result *)
-Theorem c18_conv_safe : forall c s,
-  valid c = true -> reachable c s ->
-  nores s <= 1 /\ nconv s <= b2n (isv (payload s)) /\ ndeliv s <= nores s /\
-  (oslot s = SReady -> opayload s = conv_result c (payload s)).
-Proof. exact conv_safe. Qed.
-Print Assumptions c18_conv_safe.
-
-(* the executable runner used for the correspondence check only visits reachable states *)
-Theorem c18_run_reachable : forall c fuel s sched tr,
-  reachable c s -> reachable c (fst (run_sched c fuel s sched tr)).
-Proof. exact run_sched_reachable. Qed.
-Print Assumptions c18_run_reachable.
+(* converter.  Safety, in every reachable state: the outer future is never resolved twice, the converter never runs twice
+   nor on an exception, nothing is delivered before the resolution, a ready outer future holds the expected result.
+   At the end: the outer future ALWAYS completes; it holds conv(v) / the converter's exception / the source's exception
+   (await_canceled for a broken promise) / no value when the converter declined; resolved once, delivered once (by the late
+   resolver thread when the converter forwarded the promise); the converter ran once iff there was a value, and the log is
+   exactly [converter call; outer delivery] *)
+Theorem c18_conv : forall c s, valid c = true -> reachable c s ->
+  (nores s <= 1 /\ nconv s <= b2n (isv (payload s)) /\ ndeliv s <= nores s /\
+   (oslot s = SReady -> opayload s = conv_result c (payload s))) /\
+  (is_conv c = true -> terminal s ->
+   oslot s = SReady /\ opayload s = conv_result c (wout c s) /\ nores s = 1 /\ ndeliv s = 1 /\
+   nconv s = b2n (isv (wout c s)) /\
+   exists t1 t2, log s = conv_log c (wout c s) t1 ++ [(t2, EODeliv (conv_result c (wout c s)))]).
+Proof. exact conv_all. Qed.
+Print Assumptions c18_conv.
 
 (* the decidable form of the property that is run on the IMPLEMENTATION's traces accepts every trace of the model, for
    every op list (valid or malformed), both engines and both value-type variants: the oracle demands nothing that the
@@ -113,7 +89,7 @@ Print Assumptions c18_oracle_accepts_model.
 (* non-vacuity: future_conv with a throwing converter into a race of a value against p(drop) on three threads; the
    competitor wins, the converter is never called, the outer future gets await_canceled *)
 Example c18_nonvacuous :
-  let c := mkCfg AConv 2 0 (KVal 5) (Some KDrop) 1 9 in
+  let c := mkCfg AConv 2 0 (KVal 5) (Some KDrop) None 1 9 in
   let r := fst (run_sched c 100 (init c) [0;0;0;0;2;2;1;1;2;0;1;2;0;1;2;0;0]%Z []) in
   valid c = true /\ all_enabled r = [] /\ won r = 2 /\ ret1 r = Some false /\ ret2 r = Some true /\
   opayload r = OCanc /\ nconv r = 0 /\ ndeliv r = 1 /\ nores r = 1.
@@ -122,12 +98,20 @@ Proof. vm_compute. repeat split. Qed.
 (* non-vacuity 2: a promise-passing converter that declines (touches nothing): the outer future still completes,
    exactly once, as a broken promise; and one that forwards the promise: thread 2 delivers src + d *)
 Example c18_nonvacuous_decline :
-  let c := mkCfg AConv 2 0 (KVal 5) None 3 9 in
+  let c := mkCfg AConv 2 0 (KVal 5) None None 3 9 in
   let r := fst (run_sched c 100 (init c) [0;0;0;0;1;1;1;0;1;0;1;1;0;1;1]%Z []) in
   valid c = true /\ all_enabled r = [] /\ oslot r = SReady /\ opayload r = ONone /\ nconv r = 1 /\ ndeliv r = 1 /\ nores r = 1.
 Proof. vm_compute. repeat split. Qed.
 Example c18_nonvacuous_forward :
-  let c := mkCfg AConv 2 0 (KVal 5) None 4 9 in
+  let c := mkCfg AConv 2 0 (KVal 5) None None 4 9 in
   let r := fst (run_sched c 100 (init c) [0;0;0;0;1;1;1;0;1;0;1;1;0;1;1;2;2;2]%Z []) in
   valid c = true /\ all_enabled r = [] /\ oslot r = SReady /\ opayload r = OVal 14 /\ nconv r = 1 /\ ndeliv r = 1 /\ nores r = 1.
+Proof. vm_compute. repeat split. Qed.
+
+(* non-vacuity 3: a call_fn_future_awaiter handler that re-arms its awaiter; the second operation is resolved with an
+   exception by thread 2 before the handler's subscription: two handler runs, one per operation *)
+Example c18_nonvacuous_rearm :
+  let c := mkCfg ACallFn 2 0 (KVal 5) None (Some (KExc 7)) 0 0 in
+  let r := fst (run_sched c 100 (init c) [0;0;0;1;1;1;1;1;2;2;2;1;1]%Z []) in
+  valid c = true /\ all_enabled r = [] /\ nfire r = 1 /\ nfire2 r = 1 /\ payload r = OVal 5 /\ payload2 r = OExc 7 /\ ncb r = 2.
 Proof. vm_compute. repeat split. Qed.
